@@ -4,7 +4,6 @@ import (
 	"context"
 	"errors"
 	"fmt"
-	"math/rand/v2"
 	"slices"
 	"strings"
 	"sync"
@@ -298,8 +297,8 @@ func runnerLineage(r *lib.Run, idx int) {
 		rec := newRecDB(work)
 		ctx, cancel := context.WithCancel(context.Background())
 		rec.cancel = cancel
-		// generous upper bound on the operations of a run; the point is re-drawn
-		// below the actual count when it was not reached (see retry)
+		// drawn from a generous bound on the operations of a run; a point beyond the
+		// run's last operation leaves the run uninterrupted (counted separately)
 		cancelPoint := int64(0)
 		if strings.HasPrefix(kind, "cancel") {
 			cancelPoint = 1 + rng.Int64N(6+int64(cur.N)*10)
@@ -671,4 +670,3 @@ func refusalMatrix(r *lib.Run) {
 	}
 }
 
-var _ = rand.Int
